@@ -119,9 +119,9 @@ class _ExpressionParser:
 
     Grammar:
         expr       -> term (('+' | '-') term)*
-        term       -> power (('*' | '/' | '//' | '%') power)*
-        power      -> unary ('**' power)?
-        unary      -> '-' unary | primary
+        term       -> unary (('*' | '/' | '//' | '%') unary)*
+        unary      -> '-' unary | power
+        power      -> primary ('**' unary)?
         primary    -> NUMBER | IDENT | IDENT '(' args ')' | '(' expr ')'
         args       -> expr (',' expr)*
     """
@@ -176,7 +176,7 @@ class _ExpressionParser:
 
     def _parse_term(self) -> sympy.Expr:
         """Parse a term (handles *, /, //, %)."""
-        left = self._parse_power()
+        left = self._parse_unary()
 
         while (
             self.current_token is not None
@@ -185,7 +185,7 @@ class _ExpressionParser:
         ):
             op = self.current_token[1]
             self._advance()
-            right = self._parse_power()
+            right = self._parse_unary()
             if op == "*":
                 left = left * right
             elif op == "/":
@@ -198,8 +198,12 @@ class _ExpressionParser:
         return left
 
     def _parse_power(self) -> sympy.Expr:
-        """Parse a power expression (handles **)."""
-        base = self._parse_unary()
+        """Parse a power expression (handles **).
+
+        ``**`` binds tighter than a unary minus on its left (``-N**2`` is ``-(N**2)``) and is
+        right-associative; the exponent may itself carry a unary minus (``2**-N``).
+        """
+        base = self._parse_primary()
 
         if (
             self.current_token is not None
@@ -208,7 +212,7 @@ class _ExpressionParser:
         ):
             self._advance()
             # Right-associative
-            exponent = self._parse_power()
+            exponent = self._parse_unary()
             return base**exponent
 
         return base
@@ -223,7 +227,7 @@ class _ExpressionParser:
             self._advance()
             return -self._parse_unary()
 
-        return self._parse_primary()
+        return self._parse_power()
 
     def _parse_primary(self) -> sympy.Expr:
         """Parse a primary expression (number, identifier, function call, or parenthesized expression)."""
